@@ -415,6 +415,11 @@ pub fn run(line: &str) -> String {
                 bk.config.oracle_keys[k] = Pubkey::new_from_array([0xA0 + k as u8; 32]);
             }
             bk.config.config_flags = 1;
+            // a bank in USE whose interest was last accrued a day ago: an admin instruction that touches the accrual
+            // clock, the cached rates or the share values (none of them may) becomes visible in the frame check
+            bk.total_asset_shares = I80F48::from_num(1_000_000_000u64).into();
+            bk.total_liability_shares = I80F48::from_num(400_000_000u64).into();
+            bk.last_update = bk.last_update.saturating_sub(86_400).max(0);
         });
         banks[i] = b;
         let k = BankKeys::derive(&b);
